@@ -471,7 +471,7 @@ impl<Octs> Cds<Octs> {
             Some(len) => len,
             None => return Err(ParseError::ShortInput),
         };
-        LongRecordData::check_len(len)?;
+        LongRecordData::check_len(parser.remaining())?;
         Ok(unsafe {
             Self::new_unchecked(
                 u16::parse(parser)?,
